@@ -42,12 +42,9 @@
    parameter block), so flatten d never holds a container in key position: nothing to prove on the
    tape side; this is not stated as a theorem.
 
-   PART 3 — the STREAM path beyond the core grammar: NOT DONE.  The tape half of the agreement theorem
-   is proved (C02_tape_path_ext_partial at tp = false: on everything spec_value2 false specifies --
-   core grammar, `{}` as an empty map/struct, headers read as String / bool / number / enum /
-   ignored -- the tape path returns it); the stream half (deser_stream (tokens d) = spec_value2 false,
-   which needs the ghost-object skip of TextReaderMap after a header's name) is not proved, so
-   C02_paths_agree_outside_headers_partial is NOT stated.  Where the paths differ is pinned by
+   PART 3 — the STREAM path beyond the core grammar is in Props/C02_ext.v (C02_stream_path_ext_partial,
+   C02_paths_agree_outside_headers_partial, and from the bytes C02_reader_path_ext_bytes_partial /
+   C02_paths_agree_ext_bytes_partial).  Where the paths differ is pinned by
    computed witnesses: finding H (C02_walk.v), C02_paths_differ_on_tail, C02_paths_differ_header_any. *)
 From JV Require Import Bytes Utf8 BufWin TextTok TextTape TextReader TextRef TextDoc SerdeShape TextDeCommon TextDeTape
   TextDeStream TextDeSpec TextDeBytes.
